@@ -550,7 +550,7 @@ Proof.
       apply mbind_ok in Ha as (u5 & t5 & _ & Ha). unfold ret in Ha. injection Ha as <- _.
       unfold obs_groups in *. rewrite !flat_map_app. cbn [flat_map]. rewrite app_nil_r.
       rewrite Hd by (right; eauto 10). now rewrite app_nil_r.
-  - apply mbind_ok in H as (ty & s1 & _ & H). unfold ret in H. injection H as <- _. constructor.
+  - apply mbind_ok in H as (ty & s1 & _ & H). apply mbind_ok in H as (utv & stv & _ & H). unfold ret in H. injection H as <- _. constructor.
   - apply mbind_ok in H as (ty & s1 & _ & H). unfold ret in H. injection H as <- _. constructor.
 Qed.
 End PY.
